@@ -181,7 +181,7 @@ pub const DRAFT: &[u8; 23] = b"draft-ietf-ntp-ntpv5-09";
 /// `trailer` symbolic bytes that do not form a field.
 #[cfg(kani)]
 fn wire_v5(t2: u16, w2: usize, class: Class) {
-    stubs::symbolic_rng();
+    any_rng();
     let mut buf: [u8; BUF] = kani::any();
     buf[0] = 0x2B;
     // timescale 0..=3, flags: high byte 0, only the 3 low bits of the low byte
